@@ -383,6 +383,7 @@ def cmd_picmg_get_portstate_all(ipmi, args):
             except pyipmi.errors.CompletionCodeError as e:
                 if e.cc == 0xcc:
                     continue
+                raise
 
 
 def cmd_picmg_get_portstate(ipmi, args):
